@@ -647,4 +647,19 @@ theorem run_prog8 (P : Params) (mult : Int) (ls : Nat) (diffMin : Int) (x0 : Int
   have hnat : (35 - (h : Int)).toNat = 35 - h := by omega
   rw [hnat, tail_value P hq1 hq2 hz _ _ _ ez0 ez1 hr2 hr3, hr1]
 
+/-- the table C19 proves `generate_exp_table` to produce (`SoftmaxRef.expTable`) is the table of the reference kernel's
+    exponentials with `diff_min = −CalculateInputRadius(5, left_shift)` -/
+theorem expTable_tie (mult : Int) (ls : Nat) :
+    SoftmaxRef.expTable mult ls = SoftmaxKernel.expTable8 mult ls (-(SoftmaxRef.calculateInputRadius 5 ls)) := by
+  unfold SoftmaxRef.expTable SoftmaxKernel.expTable8
+  simp only []
+  apply List.map_congr_left
+  intro x _
+  unfold SoftmaxRef.expEntry SoftmaxKernel.expOfDiff SoftmaxKernel.mbqmGreaterThanOne
+  split <;> rfl
+
+theorem inputRadius_nonneg (ls : Nat) : 0 ≤ SoftmaxRef.calculateInputRadius 5 ls := by
+  unfold SoftmaxRef.calculateInputRadius
+  exact Int.ediv_nonneg (by decide) (by have := FpMath.two_pow_pos ls; omega)
+
 end VelaVerif.Lemmas.SoftmaxRowL
